@@ -53,6 +53,8 @@ class H:
         self.req_by_tag: Dict[int, Req] = {}
         self.simple_started = 0
         self.pending_flush: List = []
+        self.closing = None
+        self.closing_checked = False
         self.cb_gates: Dict = {}
         self.cb_live = set()
         kw = {} if size is None else {"pool_size": size}
@@ -174,7 +176,7 @@ class H:
         self.reqs.append(r)
         self.req_by_tag[tag] = r
         if self.locked:
-            self.v("C09", f"{r.kind} accepted while the pool is locked")
+            self.v(["C09", "C08"], f"{r.kind} accepted while the pool is locked / closing")
 
     async def work_pair(self, pair):
         return await self.work(pair[0], pair[1])
@@ -183,6 +185,8 @@ class H:
         from asyncio_taskpool import exceptions as ex
 
         self.log.append(f"{kind} rejected: {type(e).__name__}")
+        if self.closing is not None and isinstance(e, (ex.PoolIsLocked, ex.PoolIsClosed)):
+            return
         if not (self.locked and isinstance(e, ex.PoolIsLocked)):
             self.v(["C09", "C04"], f"{kind} on an open, unlocked pool raised {type(e).__name__}: {e}")
 
@@ -215,6 +219,49 @@ class H:
             self.v("C06", f"second cancel({i}) did not raise")
         except Exception:
             pass
+
+    async def op_stop(self):
+        if not self.simple:
+            return
+        p = self.pool
+        running = list(p._tasks_running)  # creation order
+        n = self.rnd.choice([-1, 0, 1, 2, len(running), len(running) + 1, 2 * len(running) - 1, 2 * len(running) + 1])
+        got = p.stop(n)
+        self.log.append(f"stop({n}) -> {got}")
+        k = max(0, min(n, len(running)))
+        want = list(reversed(running))[:k]
+        if list(got) != want:
+            self.v("C14", f"stop({n}) with running {running} returned {list(got)}, expected {want}")
+        await drain()
+        left = [i for i in running if i in p._tasks_running]
+        if left != running[: len(running) - k]:
+            self.v("C14", f"after stop({n}) the running ids are {sorted(p._tasks_running)}, expected {running[: len(running) - k]}")
+
+    async def op_close_now(self):
+        """gather_and_close() in the middle of the history: it may only return after everything requested before has finished"""
+        if self.spawner_pending() or self.closing is not None:
+            return
+        self.log.append("gather_and_close (background)")
+        self.closing = asyncio.ensure_future(self.pool.gather_and_close(return_exceptions=True))
+        self.locked = True
+
+    def check_closing(self, where):
+        ft = self.closing
+        if ft is None or not ft.done() or self.closing_checked:
+            return
+        self.closing_checked = True
+        p = self.pool
+        if ft.exception() is not None:
+            self.v(["C08", "C12"], f"{where}: gather_and_close(return_exceptions=True) raised {type(ft.exception()).__name__}: {ft.exception()}")
+        if self.live or self.cb_live:
+            self.v("C08", f"{where}: gather_and_close() returned while task bodies {sorted(self.live)} / callbacks {sorted(self.cb_live)} are still busy")
+        for r in self.reqs:
+            if not r.cancelled and r.kind == "apply" and len(r.started) != r.n:
+                self.v(["C08", "C04"], f"{where}: gather_and_close() returned although {r.group} ran only {len(r.started)} of {r.n} invocations")
+            if not r.cancelled and r.kind in ("map", "starmap", "doublestarmap") and r.started != r.args:
+                self.v(["C08", "C05"], f"{where}: gather_and_close() returned although {r.group} ran only elements {r.started} of {r.args}")
+        if not p._closed.is_set() or p._tasks_running or p._tasks_cancelled or p._tasks_ended:
+            self.v("C08", f"{where}: after gather_and_close() the pool is not closed / still holds tasks")
 
     async def op_cancel_group(self):
         live = [r for r in self.reqs if not r.cancelled and r.group in self.pool._task_groups]
@@ -262,7 +309,7 @@ class H:
                 self.v(["C13", "C03", "C02"], f"flush forgot task {i} that is still inside its callback")
 
     async def op_lock_probe(self):
-        if self.spawner_pending():
+        if self.spawner_pending() or self.closing is not None:
             return
         p = self.pool
         p.lock()
@@ -280,6 +327,9 @@ class H:
     # ---- invariants after every step ---------------------------------------------------------------------
     def check_now(self, where):
         p = self.pool
+        self.check_closing(where)
+        if self.closing is not None and self.closing.done():
+            return
         size = float("inf") if self.size is None else self.size
         if len(self.live) > size or self.max_live > size:
             self.v("C01", f"{where}: {max(len(self.live), self.max_live)} task bodies active in a pool of size {size}")
@@ -322,7 +372,7 @@ class H:
 
     # ---- driver --------------------------------------------------------------------------------------------
     async def run(self, nops: int):
-        ops = [(self.op_spawn, 5), (self.op_finish, 5), (lambda: self.op_finish(fail=True), 1), (self.op_cancel, 2), (self.op_cancel_group, 2), (self.op_flush, 3), (self.op_lock_probe, 1), (self.op_release_callback, 3)]
+        ops = [(self.op_spawn, 5), (self.op_finish, 5), (lambda: self.op_finish(fail=True), 1), (self.op_cancel, 2), (self.op_cancel_group, 2), (self.op_flush, 3), (self.op_lock_probe, 1), (self.op_release_callback, 3), (self.op_stop, 2), (self.op_close_now, 1)]
         bag = [f for f, w in ops for _ in range(w)]
         for k in range(nops):
             op = self.rnd.choice(bag)
@@ -382,6 +432,13 @@ class H:
         if sorted(self.cancel_cb) != sorted(set(self.cancel_cb)):
             self.v("C03", f"a cancel callback ran twice: {sorted(self.cancel_cb)}")
         # close
+        if self.closing is not None:
+            await drain()
+            self.check_closing("quiescent")
+            if not self.closing.done():
+                self.v("C08", "gather_and_close() does not return on a quiescent pool")
+                self.closing.cancel()
+            return
         try:
             await asyncio.wait_for(p.gather_and_close(return_exceptions=True), 5)
         except asyncio.TimeoutError:
